@@ -568,3 +568,27 @@ mod test {
         }
     }
 }
+
+#[cfg(curve25519_dalek_verif)]
+impl ExtendedPoint {
+    /// Verification hook: the underlying vector.
+    pub(crate) fn verif_raw(&self) -> FieldElement2625x4 {
+        self.0
+    }
+    /// Verification hook: wrap a vector without any validation.
+    pub(crate) fn verif_from_raw(v: FieldElement2625x4) -> ExtendedPoint {
+        ExtendedPoint(v)
+    }
+}
+
+#[cfg(curve25519_dalek_verif)]
+impl CachedPoint {
+    /// Verification hook: the underlying vector.
+    pub(crate) fn verif_raw(&self) -> FieldElement2625x4 {
+        self.0
+    }
+    /// Verification hook: wrap a vector without any validation.
+    pub(crate) fn verif_from_raw(v: FieldElement2625x4) -> CachedPoint {
+        CachedPoint(v)
+    }
+}
